@@ -22,6 +22,32 @@ TRUSTED_BASE = ["verif.reglang", "verif.pyvc", "verif.bounded.model"]
 LEXER = "octave_mcp.core.lexer"
 
 
+def probe_receipts():
+    """texts with rewrites at known places: one receipt each, with the written / resulting text and the position"""
+    from octave_mcp.core.parser import parse_with_warnings
+
+    cases = [
+        ("===D===\nA::x->y\n===END===\n", [("->", "→", 2, 5)]),
+        ("===D===\nA::x->y->z\nB::p+q\n===END===\n", [("->", "→", 2, 5), ("->", "→", 2, 8), ("+", "⊕", 3, 5)]),
+        ('===D===\nS::"a\u2028b"\nA::x->y\n===END===\n', [("->", "→", 3, 5)]),
+        ('===D===\nT::"""x"""\nA::u<->v\n===END===\n', [('"""', None, 2, 4), ("<->", "⇌", 3, 5)]),
+        ("===D===\nA::x→y\nB::p⊕q\n===END===\n", []),
+    ]
+    bad = []
+    for text, want in cases:
+        _, ws = parse_with_warnings(text)
+        got = sorted((w.get("original"), w.get("line"), w.get("column")) for w in ws if w.get("type") == "normalization")
+        exp = sorted((o, ln, c) for o, _, ln, c in want)
+        if got != exp:
+            bad.append(f"{text!r}: receipts {got}, rewrites written {exp}")
+        for w in ws:
+            if w.get("type") == "normalization":
+                m = [n for o, n, ln, c in want if (o, ln, c) == (w.get("original"), w.get("line"), w.get("column")) and n is not None]
+                if m and w.get("normalized") != m[0]:
+                    bad.append(f"{text!r}: {w.get('original')} reported as becoming {w.get('normalized')!r}")
+    return bool(bad), "; ".join(bad[:2]) or "probe: each written rewrite has exactly one receipt with its text and position"
+
+
 def ob_receipt_coupling(ctx: Ctx) -> Outcome:
     """C07.P1 (AST shape): in tokenize's table branch the token is Token(token_type, value, line, column,
     normalized_from, raw_lexeme) and `if normalized_from: repairs.append({type: normalization, original:
@@ -41,22 +67,24 @@ def ob_receipt_coupling(ctx: Ctx) -> Outcome:
         ("tokens.append(Token(TokenType.SYNTHESIS, '⊕', line, column, '+'))\n                repairs.append({'type': 'normalization', 'original': '+', 'normalized': '⊕', 'line': line, 'column': column})", "'+' branch: token and receipt together"),
         ("token = Token(TokenType.IDENTIFIER, unicode_id, line, column)", "identifier tokens carry no normalized_from"),
     ]
+    from verif.common import shape_verdict
+
     for text, what in need:
         if text not in src:
-            return Outcome.refuted("ast-shape", [Witness(what=f"tokenize no longer has the receipt coupling `{what}`", key=what, input=text, verifier_output=f"expected statement text not found in ast.unparse(tokenize):\n{text}")], count=len(need))
+            return shape_verdict("ast-shape", [f"tokenize no longer has the receipt coupling `{what}`"], probe_receipts, len(need), {"runner": "props.C07:probe_receipts", "args": {}})
         facts.append(what)
     # between token creation and the receipt nothing rebinds line / column / value / normalized_from
     seg = src.split("token = Token(token_type, value, line, column, normalized_from, raw_lexeme)", 1)[1].split("if normalized_from:", 1)[0]
     if re.search(r"^\s*(line|column|value|normalized_from)\s*(=|\+=)", seg, re.M):
-        return Outcome.refuted("ast-shape", [Witness(what="line/column/value/normalized_from is rebound between the token and its receipt", key="rebound", input=seg[:300])], count=len(need) + 1)
+        return shape_verdict("ast-shape", ["line/column/value/normalized_from is rebound between the token and its receipt"], probe_receipts, len(need) + 1, {"runner": "props.C07:probe_receipts", "args": {}})
     # normalized_from is assigned only from matched_text, '\"\"\"' or None
     assigns = set(re.findall(r"normalized_from = (.+)", src))
     if not assigns <= {"None", "'\"\"\"'", "matched_text"}:
-        return Outcome.refuted("ast-shape", [Witness(what=f"normalized_from assigned from {sorted(assigns)}", key="normalized_from-source", input=sorted(assigns))], count=len(need) + 2)
+        return shape_verdict("ast-shape", [f"normalized_from assigned from {sorted(assigns)}"], probe_receipts, len(need) + 2, {"runner": "props.C07:probe_receipts", "args": {}})
     # the only other appends of type normalization: none
     n_norm = src.count("'type': 'normalization'")
     if n_norm != 2:
-        return Outcome.refuted("ast-shape", [Witness(what=f"{n_norm} sites append a normalization receipt (expected the table branch and the '+' branch)", key="normalization-sites", input=n_norm)], count=len(need) + 3)
+        return shape_verdict("ast-shape", [f"{n_norm} sites append a normalization receipt (expected the table branch and the '+' branch)"], probe_receipts, len(need) + 3, {"runner": "props.C07:probe_receipts", "args": {}})
     return Outcome.ok("ast-shape", count=len(need) + 3, facts=facts)
 
 
